@@ -238,13 +238,13 @@ func runC05(ctx *Ctx, idx int) Result {
 		}
 		s := sched.New(strat)
 		o := c05Execute(ctx, p, conc.Mode{Sched: s}, label)
+		ctx.Stats["evaluations.extra"]++
 		if !c05Seen[o.hash] {
 			c05Seen[o.hash] = true
 			ctx.Stats["c05.distinct-schedules"]++
-		}
-		ctx.Stats["evaluations.extra"]++
-		if o.nontr {
-			ctx.Stats["nontrivial.extra"]++
+			if o.nontr {
+				ctx.Stats["nontrivial.extra"]++ // distinct schedule AND a reader overlapped a publication
+			}
 		}
 		return Result{Hash: o.hash, NonTrivial: o.nontr, Viol: o.viol, Inconclusive: o.incon,
 			Sample: map[string]interface{}{"index": idx, "mode": label, "workers": 2 + len(p.Readers), "decisions": len(s.Decisions), "mutations": len(p.Mutator), "flushes": len(p.Flusher)}}
@@ -266,7 +266,8 @@ func runC05(ctx *Ctx, idx int) Result {
 	o := c05Execute(ctx, p, conc.Mode{Delay: delay}, "free-running")
 	ctx.Stats["c05.free-running-histories"]++
 	ctx.Stats["evaluations.extra"]++
-	if o.nontr {
+	if o.nontr && !c05Seen[o.hash] {
+		c05Seen[o.hash] = true
 		ctx.Stats["nontrivial.extra"]++
 	}
 	return Result{Hash: o.hash, NonTrivial: o.nontr, Viol: o.viol, Inconclusive: o.incon,
@@ -299,9 +300,9 @@ func runC05Enum(ctx *Ctx, idx, tmpl int) Result {
 		if !seen[o.hash] {
 			seen[o.hash] = true
 			distinct++
-		}
-		if o.nontr {
-			nontr++
+			if o.nontr {
+				nontr++ // distinct schedule AND non-trivial
+			}
 		}
 		if o.viol != nil {
 			viol = o.viol
